@@ -14,14 +14,20 @@ ASSUME \A p \in ParsedTexts : p[1] = p[2] /\ Len(p[1]) <= 2 * MaxTextLines
 Deeper == TLCGet("level") <= MaxDepth
 MCParse == Deeper /\ \E k \in 1..(MaxLines - Len(lines)) : k <= 2 * MaxTextLines /\ \E p \in ParsedByLen[k] : ParseMC(p)
 \* one named action per branch of ini_val_set, so that -coverage shows that each is taken
-MCSetOn(path) == /\ Deeper
-                 /\ \E s \in Sections, n \in Names, v \in Values :
-                      SetPath(lines, s, n, v, RepairedFind) = path /\ Set(s, n, v)
-                 /\ Len(lines') <= MaxLines
-MCSetNewSect == MCSetOn("newsect")
-MCSetInsert  == MCSetOn("insert")
-MCSetInPlace == MCSetOn("inplace")
-MCSetRealloc == MCSetOn("realloc")
+MCSetNewSect == /\ Deeper
+                /\ \E s \in Sections, n \in Names, v \in Values :
+                     SetPath(lines, s, n, v, RepairedFind) = "newsect" /\ Set(s, n, v)
+                /\ Len(lines') <= MaxLines
+MCSetInsert  == /\ Deeper
+                /\ \E s \in Sections, n \in Names, v \in Values :
+                     SetPath(lines, s, n, v, RepairedFind) = "insert" /\ Set(s, n, v)
+                /\ Len(lines') <= MaxLines
+MCSetInPlace == /\ Deeper
+                /\ \E s \in Sections, n \in Names, v \in Values :
+                     SetPath(lines, s, n, v, RepairedFind) = "inplace" /\ Set(s, n, v)
+MCSetRealloc == /\ Deeper
+                /\ \E s \in Sections, n \in Names, v \in Values :
+                     SetPath(lines, s, n, v, RepairedFind) = "realloc" /\ Set(s, n, v)
 MCNext == MCParse \/ MCSetNewSect \/ MCSetInsert \/ MCSetInPlace \/ MCSetRealloc
 MCSpec == MCInit /\ [][MCNext]_vars
 
